@@ -104,8 +104,9 @@ def main():
                 meta["needs_to_manifest"] = " ".join(open(notes).read().split())[:1500]
             try:
                 old = json.load(open(os.path.join(dst, "meta.json")))
-                if old.get("declined"):
-                    meta["declined"] = old["declined"]          # a recorded decision, not a measurement
+                for k_ in ("declined", "owner", "owner_why"):
+                    if old.get(k_):
+                        meta[k_] = old[k_]          # a recorded decision, not a measurement
             except (OSError, ValueError):
                 pass
             with open(os.path.join(dst, "meta.json"), "w") as f:
